@@ -56,6 +56,9 @@ type c05Params struct {
 	// GiveUp: once the first bytes are on the wire, a Ping whose context is
 	// cancelled at 500 ms waits for the frame lock (and gives up).
 	GiveUp bool
+	// Sparse: every 200th byte of a payload is pseudo-random, so that the compressor produces
+	// output (and with it frames) while a large Write is still in progress, not only at its end
+	Sparse bool
 }
 
 func (p c05Params) abandons() bool {
@@ -114,7 +117,15 @@ func c05Setup(prm c05Params) func(c *fw.Ctx, name string) explore.Setup {
 					if prm.Repeat {
 						tag = byte(0xA0 + ti*4)
 					}
-					st.msgs = append(st.msgs, &wres{task: ti, idx: mi, payload: fill(tag, n), text: op.Text})
+					pl := fill(tag, n)
+					if prm.Sparse {
+						x := uint32(tag)
+						for i := 0; i < n; i += 200 {
+							x = x*1664525 + 1013904223
+							pl[i] = byte(x >> 24)
+						}
+					}
+					st.msgs = append(st.msgs, &wres{task: ti, idx: mi, payload: pl, text: op.Text})
 				}
 			}
 			w.GoHarness("main", true, func() {
@@ -741,6 +752,15 @@ func c02Scenarios(tier string) []scenario {
 	// (more than one 64 KiB block of input): the message must still inflate to what was written
 	for _, k := range []connCfg{{Client: false, Flate: true, Thr: 1}, {Client: true, Flate: true, Thr: 1, CNCT: true, SNCT: true}} {
 		prm := c05Params{Prop: "C02", Name: "WC-cancel1-big", K: k, Closer: "cancel1", Writers: [][]wop{{{Stream: true, Chunks: []int{70000, 10}}}, {{Text: true, Chunks: []int{10}}}}}
+		scs = append(scs, scenario{Name: prm.Name + "/" + k.String(), Cfg: explore.Config{P: p, Horizon: 60e9}, Setup: c05Setup(prm)})
+	}
+	// a compressed Write that emits two frames before it ends (two deflate blocks) and whose
+	// context is cancelled between them, then another Write: a message that was begun and
+	// abandoned must never be followed by the first frame of another message
+	// (threshold 64: the second message is small enough to go out uncompressed, so a compressor
+	// left broken by the abandoned message cannot stop it)
+	for _, k := range []connCfg{{Client: false, Flate: true, Thr: 64}, {Client: true, Flate: true, Thr: 64, CNCT: true, SNCT: true}} {
+		prm := c05Params{Prop: "C02", Name: "WC-cancel0-huge", K: k, Closer: "cancel0", Sparse: true, Writers: [][]wop{{{Chunks: []int{140000}}}, {{Text: true, Chunks: []int{10}}}}}
 		scs = append(scs, scenario{Name: prm.Name + "/" + k.String(), Cfg: explore.Config{P: p, Horizon: 60e9}, Setup: c05Setup(prm)})
 	}
 	for _, k := range []connCfg{{Client: true}, {Client: false}, {Client: true, Flate: true, Thr: 1}} {
